@@ -3,6 +3,8 @@
             every Matcher.Matches, every Matchers.Matches and MatcherSet.Matches.
    CSite  : one matcher (type,name,value) and a label set, evaluated through every construction path of the code
             (NewMatcher, route, silence, inhibit rule, API filter): all observed verdicts must be the model's.
+   CSil   : matcher sets stored as a silence in a real silence.Silences and asked back through the public path
+            (Query with QMatches, Silencer.Mutes, API filter for a single list): every verdict is the model's.
    CPrint : a matcher list, with what Matcher.String printed for each and Matchers.String for the list.
    CParse : an input string, with what each parser entry point returned (key, result):
             c1/cN labels.ParseMatcher/ParseMatchers, u1/uN parse.Matcher/Matchers, kc*/ku*/kf* compat.Matcher/
@@ -19,6 +21,7 @@ Inductive case :=
 | CMatch (tbl : re_table) (mss : list (list matcher)) (ls : list (string * string))
          (obs_m : list (list bool)) (obs_ms : list bool) (obs_set : bool)
 | CSite (tbl : re_table) (m : matcher) (ls : list (string * string)) (obs : list (string * bool))
+| CSil (tbl : re_table) (mss : list (list matcher)) (ls : list (string * string)) (obs : list (string * bool))
 | CPrint (tb : tables) (ms : list matcher) (each : list string) (all : string)
 | CParse (tb : tables) (input : string) (obs : list (string * res (list matcher))).
 
@@ -66,6 +69,7 @@ Definition show_case (c : case) : shown :=
   match c with
   | CMatch tbl mss ls _ _ _ => let '(a, b, s) := model_match tbl mss ls in SMatch a b s
   | CSite tbl m ls _ => SSite (m_matches (re_of_table tbl) m (lget ls (m_name m)))
+  | CSil tbl mss ls _ => SSite (mset_matches (re_of_table tbl) mss ls)
   | CPrint tb ms _ _ => SPrint (map (fun m => print_b (sp_of tb) (pr_of tb) (bm_of m)) ms)
                                (print_list_b (sp_of tb) (pr_of tb) (map bm_of ms))
   | CParse tb input obs => SParse (map (fun kv => (fst kv, model_parse tb (fst kv) (bytes_of_string input))) obs)
@@ -77,6 +81,9 @@ Definition check_case (c : case) : bool :=
       let '(a, b, s) := model_match tbl mss ls in beq a om && beq b oms && beq s oset
   | CSite tbl m ls obs =>
       let v := m_matches (re_of_table tbl) m (lget ls (m_name m)) in
+      forallb (fun '(_, b) => beq b v) obs
+  | CSil tbl mss ls obs =>
+      let v := mset_matches (re_of_table tbl) mss ls in
       forallb (fun '(_, b) => beq b v) obs
   | CPrint tb ms each all =>
       beq (map (fun m => print_b (sp_of tb) (pr_of tb) (bm_of m)) ms) (map bytes_of_string each) &&
@@ -116,6 +123,10 @@ Definition prop_case (c : case) : bool :=
         | _ => true
         end) ms) mss
   | CSite tbl m ls _ => true
+  | CSil tbl mss ls _ =>
+      (* a label the set does not carry, or carries with an empty value, is read as the empty string *)
+      let re := re_of_table tbl in
+      beq (mset_matches re mss ls) (mset_matches re mss (filter (fun kv => negb (String.eqb (snd kv) "")) ls))
   | CPrint tb ms _ _ =>
       let sp := sp_of tb in let pr := pr_of tb in let cp := cp_of tb in
       let bms := map bm_of ms in
